@@ -448,6 +448,8 @@ struct Sys<B: Backend> {
     log: Arc<BufferedRaftLog<Cfg<B>>>,
     io: Option<Pin<Box<dyn Future<Output = ()>>>>,
     journal: Arc<Mutex<Vec<Act>>>,
+    /// a write notification is pending (append_entries ran since the IO loop was last polled)
+    np: bool,
 }
 
 struct SchedMismatch;
@@ -467,7 +469,7 @@ impl<B: Backend> Sys<B> {
         );
         let log = Arc::new(log);
         let io = BufferedRaftLog::verif_io_loop(&log, rx);
-        let mut s = Sys { eng, ctx, log, io: Some(io), journal };
+        let mut s = Sys { eng, ctx, log, io: Some(io), journal, np: false };
         // first poll: the loop creates its timer and registers on the Notify / the channel; nothing is ready
         s.poll_io().await;
         s
@@ -478,6 +480,7 @@ impl<B: Backend> Sys<B> {
             if let Poll::Ready(()) = futures::poll!(io.as_mut()) {
                 self.io = None; // loop exited (Shutdown): its receiver is dropped with it
             }
+            self.np = false; // the loop ran until nothing was ready
         }
     }
 
@@ -497,23 +500,36 @@ impl<B: Backend> Sys<B> {
         self.journal.lock().unwrap().len()
     }
 
-    /// Did the IO loop take the requested arm first (as far as the store calls can tell)?
-    fn sched_ok(&self, from: usize, cmd: Option<Act>, first: First) -> Result<(), SchedMismatch> {
+    /// Did the IO loop take the requested arm first? Judged from the store calls made while the operation ran
+    /// (`from..to` of the journal); `np` = a write notification was pending when the loop was polled. Orders that
+    /// leave the same calls behind lead to the same state, so they need not be told apart.
+    fn sched_ok(&self, from: usize, to: usize, cmd: Option<Act>, first: First, np: bool) -> Result<(), SchedMismatch> {
         let j = self.journal.lock().unwrap();
-        let slice = &j[from..];
+        let slice = &j[from..to];
         let Some(cmd) = cmd else { return Ok(()) };
         let Some(pos) = slice.iter().position(|a| *a == cmd) else { return Ok(()) };
         let before = &slice[..pos];
+        let after = &slice[pos + 1..];
         let ok = match first {
             // command arm first: its store call is the first store call of the run
             First::Cmd => before.is_empty(),
-            // notify arm first (command drained inside it): persists, if any, come before the command's call
-            // and there is no fsync before it; if nothing was persisted at all the orders coincide
-            First::Notify => !before.contains(&Act::Flush) && (!slice.contains(&Act::Persist) || before.contains(&Act::Persist)),
-            // timer arm first: an fsync (or nothing at all to do) precedes the command's call
-            First::Timer => before.contains(&Act::Flush) || !slice.contains(&Act::Persist),
+            // notify arm first (it drains the command): what it persists comes before the command's call, with
+            // no fsync in between
+            First::Notify => !np || (!before.contains(&Act::Flush) && (!slice.contains(&Act::Persist) || before.contains(&Act::Persist))),
+            // timer arm first (persist + fsync, no drain), then the command
+            First::Timer => {
+                if np {
+                    !after.contains(&Act::Persist) && (!before.contains(&Act::Persist) || before.contains(&Act::Flush))
+                } else {
+                    after.is_empty()
+                }
+            }
         };
         if ok { Ok(()) } else { Err(SchedMismatch) }
+    }
+
+    fn mem_dump(&self) -> String {
+        show_entries(&self.log.get_entries_range(0..=DUMP_MAX).unwrap_or_default())
     }
 
     fn snapshot(&self) -> String {
@@ -557,17 +573,35 @@ impl<B: Backend> Sys<B> {
             None => "hang".to_string(),
         };
         let j0 = self.jlen();
+        let np0 = self.np;
         let log = self.log.clone();
+        let first_of = match op {
+            Op::Fca(_, _, _, f) | Op::Purge(_, _, f) | Op::Reset(f) | Op::Flush(f) => *f,
+            _ => First::Cmd,
+        };
+        if first_of == First::Timer {
+            tokio::time::advance(Duration::from_millis(IDLE_MS)).await;
+        }
         let out = match op {
-            Op::Append(es) => res(self.drive(log.append_entries(es.clone())).await),
-            Op::Fca(pi, pt, es, first) => {
-                if *first == First::Timer {
-                    tokio::time::advance(Duration::from_millis(IDLE_MS)).await;
+            Op::Append(es) => {
+                let r = res(self.drive(log.append_entries(es.clone())).await);
+                if !es.is_empty() {
+                    self.np = true;
                 }
+                r
+            }
+            Op::Fca(pi, pt, es, first) => {
+                let m0 = self.mem_dump();
                 let r = self.drive(log.filter_out_conflicts_and_append(*pi, *pt, es.clone())).await;
+                let j1 = self.jlen();
                 // reset path: the Reset command, conflict path: the ReplaceRange command
-                let cmd = if *pi == 0 && *pt == 0 { Act::Reset } else { Act::Replace };
-                self.sched_ok(j0, Some(cmd), *first)?;
+                let reset = *pi == 0 && *pt == 0;
+                let cmd = if reset { Act::Reset } else { Act::Replace };
+                self.sched_ok(j0, j1, Some(cmd), *first, np0)?;
+                let replaced = self.journal.lock().unwrap()[j0..j1].contains(&Act::Replace);
+                if matches!(r, Some(Ok(_))) && ((reset && !es.is_empty()) || (!reset && !replaced && self.mem_dump() != m0)) {
+                    self.np = true; // the operation went through append_entries
+                }
                 match r {
                     Some(Ok(Some(l))) => format!("r={}.{}", l.index, l.term),
                     Some(Ok(None)) => "r=-".into(),
@@ -576,27 +610,16 @@ impl<B: Backend> Sys<B> {
                 }
             }
             Op::Purge(i, t, first) => {
-                if *first == First::Timer {
-                    tokio::time::advance(Duration::from_millis(IDLE_MS)).await;
-                }
                 let r = self.drive(log.purge_logs_up_to(LogId { index: *i, term: *t })).await;
-                self.sched_ok(j0, Some(Act::Purge), *first)?;
+                self.sched_ok(j0, self.jlen(), Some(Act::Purge), *first, np0)?;
                 res(r)
             }
             Op::Reset(first) => {
-                if *first == First::Timer {
-                    tokio::time::advance(Duration::from_millis(IDLE_MS)).await;
-                }
                 let r = self.drive(log.reset()).await;
-                self.sched_ok(j0, Some(Act::Reset), *first)?;
+                self.sched_ok(j0, self.jlen(), Some(Act::Reset), *first, np0)?;
                 res(r)
             }
-            Op::Flush(first) => {
-                if *first == First::Timer {
-                    tokio::time::advance(Duration::from_millis(IDLE_MS)).await;
-                }
-                res(self.drive(log.flush()).await)
-            }
+            Op::Flush(_) => res(self.drive(log.flush()).await),
             Op::Alloc(n) => {
                 let r = log.pre_allocate_id_range(*n);
                 if *n == 0 { "-".to_string() } else { format!("{}-{}", r.start(), r.end()) }
@@ -621,7 +644,7 @@ impl<B: Backend> Sys<B> {
             }
             Op::Crash(power) => {
                 drop(log);
-                let Sys { eng, ctx, log, io, journal: _ } = self;
+                let Sys { eng, ctx, log, io, journal: _, np: _ } = self;
                 drop(io); // the IO loop dies where it stands
                 drop(log);
                 match B::crash(eng, &ctx, *power) {
@@ -634,6 +657,10 @@ impl<B: Backend> Sys<B> {
                 }
             }
         };
+        if first_of == First::Timer {
+            // consume the due tick inside this operation, whether or not the operation waited for the IO loop
+            self.poll_io().await;
+        }
         let snap = self.snapshot();
         Ok((self, format!("{} {}", out, snap)))
     }
